@@ -192,6 +192,8 @@ type VMgrEnv struct {
 	FailAlloc bool     // AllocatePacketConn/AllocateListener/AllocateConn may fail
 	Veto      bool     // the permission handler may refuse (arbitrary verdict per call)
 	VetoLog   []net.IP // IPs the permission handler refused
+	asked     []net.IP // policy memo: the handler is a function of the peer IP
+	answers   []bool
 	RelayPort int      // if non-zero, relay sockets report this port
 }
 
@@ -230,6 +232,12 @@ func VNewManager(failAlloc, veto bool) *VMgrEnv {
 	if veto {
 		cfg.PermissionHandler = func(src net.Addr, peer net.IP) bool {
 			ok := vBool()
+			// an operator policy is a function of the peer IP: same IP, same verdict
+			for i, ip := range env.asked {
+				vAssume(vImplies(vIPEq(ip, peer), ok == env.answers[i]))
+			}
+			env.asked = append(env.asked, peer)
+			env.answers = append(env.answers, ok)
 			if !ok {
 				env.VetoLog = append(env.VetoLog, peer)
 			}
